@@ -8,6 +8,7 @@ from ..affine import linear, NotAffine
 from ..util import (is_name, calls_in, callee_qual, deref, ancestors, stmt_of, parent, kwarg)
 from .c01 import model
 from .c02 import producers
+from ..pattern import match, matches
 
 info('C18',
      explanation='Static decision of: formatter exhaustiveness (every non-arithmetic op code a producer records '
@@ -57,7 +58,7 @@ def formatter_exhaustive(ctx):
             by.setdefault(c, b)
     # '.' -> '.' + arg
     b = by.get('.')
-    ok = b is not None and len(b.body) == 1 and norm(b.body[0]) == "prepr.append('.' + %s)" % argv
+    ok = b is not None and len(b.body) == 1 and matches(b.body[0], "$pp.append('.' + %s)" % argv)
     ctx.ob(ok, u, "'.' renders as .name: %s" % ([norm(s) for s in b.body] if b else None))
     # '[' -> [index] with slices through _format_slice, tuples element-wise
     b = by.get('[')
@@ -72,17 +73,23 @@ def formatter_exhaustive(ctx):
     ok = False
     if b is not None:
         fi = [c for s in b.body for c in ast.walk(s) if isinstance(c, ast.Call) and callee_qual(p, u, c) == 'core.format_invocation']
-        ok = len(fi) == 1 and {k.arg: norm(k.value) for k in fi[0].keywords} == {'args': 'args', 'kwargs': 'kwargs', 'repr': 'bbrepr'} \
-            and any(norm(s) == 'args, kwargs = %s' % argv for s in b.body)
+        un = [match(s_, '$a, $k = %s' % argv) for s_ in b.body]
+        un = [x for x in un if x]
+        ok = len(fi) == 1 and len(un) == 1 and {k.arg: norm(k.value) for k in fi[0].keywords} == \
+            {'args': un[0]['a'], 'kwargs': un[0]['k'], 'repr': 'bbrepr'}
     ctx.ob(ok, u, "'(' renders as a call with its positional and keyword arguments")
     b = by.get('P')
     ok = b is not None and len(b.body) == 1 and isinstance(b.body[0], ast.Return) and callee_qual(p, u, b.body[0].value) == 'core._format_path'
     ctx.ob(ok, u, "a 'P' step switches to Path(...) notation for the whole expression")
     # _format_slice
     su = ctx.unit('core._format_slice')
-    texts = [norm(s) for s in su.node.body]
-    ok = any("fmt(x.start) + ':' + fmt(x.stop) + ':' + fmt(x.step)" in t for t in texts) and \
-        any("return fmt(x.start) + ':' + fmt(x.stop)" in t for t in texts) and any('type(x) is not slice' in t for t in texts)
+    xp = su.params[0]
+    fmts = [n.targets[0].id for n in su.own_nodes() if isinstance(n, ast.Assign) and is_name(n.targets[0]) and isinstance(n.value, ast.Lambda)]
+    f = fmts[0] if fmts else '?'
+    rets = [n for n in su.own_nodes() if isinstance(n, ast.Return)]
+    ok = any(matches(r.value, "%s(%s.start) + ':' + %s(%s.stop) + ':' + %s(%s.step)" % (f, xp, f, xp, f, xp)) for r in rets) and \
+        any(matches(r.value, "%s(%s.start) + ':' + %s(%s.stop)" % (f, xp, f, xp)) for r in rets) and \
+        any(isinstance(n, ast.If) and matches(n.test, 'type(%s) is not slice' % xp) for n in su.node.body)
     ctx.ob(ok, su, 'slices render as start:stop[:step] with None parts empty; other indexes by bbrepr')
     fm = [n for n in su.own_nodes() if isinstance(n, ast.Lambda)]
     ok = len(fm) == 1 and isinstance(fm[0].body, ast.IfExp)
@@ -108,8 +115,10 @@ def formatter_exhaustive(ctx):
           and n.left.value == 'Path(%s)']
     ctx.ob(len(jn) == 1, fu, 'paths render as Path(<parts>)')
     lc = [n for n in fu.own_nodes() if isinstance(n, ast.ListComp)]
-    ok = len(lc) == 1 and isinstance(lc[0].elt, ast.IfExp) and norm(lc[0].elt.body) == '_format_t(part)' \
-        and norm(lc[0].elt.orelse) == 'repr(part)' and not lc[0].generators[0].ifs
+    ok = len(lc) == 1 and isinstance(lc[0].elt, ast.IfExp) and not lc[0].generators[0].ifs
+    if ok:
+        b0 = match(lc[0].elt.body, '_format_t($pt)')
+        ok = b0 is not None and matches(lc[0].elt.orelse, 'repr(%s)' % b0['pt']) and is_name(lc[0].generators[0].target, b0['pt'])
     ctx.ob(ok, fu, 'every part is rendered, T chunks as T expressions and path parts by repr: %s' % [norm(x) for x in lc])
     ctx.floor(len(codes) + len(structural) + 7)
 
@@ -164,7 +173,7 @@ def pickle_state(ctx):
                 and tag.slice.slice.value == 0
     ctx.ob(ok, gu, 'state = (root tag of ops[0],) + every step: %s' % [norm(x) for x in r])
     su = ctx.unit('core.TType.__setstate__')
-    st = [n for n in su.node.body if isinstance(n, ast.Assign)]
+    st = [n for n in su.node.body if isinstance(n, ast.Assign) and isinstance(n.targets[0], ast.Attribute)]
     ok = len(st) == 1 and isinstance(st[0].targets[0], ast.Attribute) and st[0].targets[0].attr == '__ops__' and is_name(st[0].targets[0].value, 'self')
     if ok:
         v = st[0].value
@@ -314,7 +323,7 @@ def index_guard(ctx):
     r = guards[0].body[0]
     ctx.ob(norm(r.exc.func) == 'IndexError', u, 'out-of-range indexes raise IndexError (like a tuple)')
     # stop = start + one step
-    stops = [n for n in h.body if isinstance(n, ast.Assign) and is_name(n.targets[0], 'stop')]
+    stops = [n for n in h.body if isinstance(n, ast.Assign) and is_name(n.targets[0]) and isinstance(n.value, ast.IfExp) and n is not st]
     ok = len(stops) == 1 and isinstance(stops[0].value, ast.IfExp)
     if ok:
         try:
@@ -341,7 +350,10 @@ def sequence_views(ctx):
     ctx.ob(norm(nu.node.body[-1]) == 'return not self == other', nu, '!= is the negation of ==')
     su = ctx.unit('core.Path.startswith')
     r = [n for n in su.node.body if isinstance(n, ast.Return)]
-    ok = len(r) == 1 and norm(r[0].value) == 'self.path_t.__ops__[:len(o_path)] == o_path'
+    ok = len(r) == 1 and matches(r[0].value, 'self.path_t.__ops__[:len($o)] == $o')
+    if ok:
+        ov = match(r[0].value, 'self.path_t.__ops__[:len($o)] == $o')['o']
+        ok = any(matches(n, '%s = $x.__ops__' % ov) for n in su.node.body if isinstance(n, ast.Assign))
     ctx.ob(ok, su, 'startswith compares the op-tuple prefix: %s' % [norm(x) for x in r])
     iu = ctx.unit('core.Path.items')
     r = [n for n in iu.node.body if isinstance(n, ast.Return)]
@@ -350,8 +362,11 @@ def sequence_views(ctx):
     ctx.ob(ok, iu, 'items() pairs each op with its argument, as a tuple')
     fu = ctx.unit('core.Path.from_t')
     st = [n for n in fu.own_nodes() if isinstance(n, ast.Assign) and isinstance(n.targets[0], ast.Attribute) and n.targets[0].attr == '__ops__']
-    ok = len(st) == 1 and norm(st[0].value) == '(T,) + t_path[1:]'
-    ctx.ob(ok, fu, 'from_t re-roots the same steps at T: %s' % [norm(s) for s in st])
+    ok = len(st) == 1 and matches(st[0].value, '(T,) + $tp[1:]')
+    if ok:
+        tp = match(st[0].value, '(T,) + $tp[1:]')['tp']
+        ok = any(matches(n, '%s = self.path_t.__ops__' % tp) for n in fu.node.body if isinstance(n, ast.Assign))
+    ctx.ob(ok, fu, 'from_t re-roots the same steps at T: %s' % [norm(s_) for s_ in st])
     gu = ctx.unit('core.Path.glomit')
     r = [n for n in gu.node.body if isinstance(n, ast.Return)]
     ok = len(r) == 1 and norm(r[0].value) == '_t_eval(%s, self.path_t, %s)' % (gu.params[1], gu.params[2])
@@ -368,36 +383,43 @@ def path_flattening(ctx):
     parts = u.vararg
     lp = [n for n in u.own_nodes() if isinstance(n, ast.For)]
     ctx.require(len(lp) == 1, 'Path.__init__: part loop not found')
-    ctx.ob(norm(lp[0].iter) == '%s[offset:]' % parts, u, 'all parts after an optional leading T are consumed in order: %s' % norm(lp[0].iter))
+    bi = match(lp[0].iter, '%s[$off:]' % parts)
+    ctx.ob(bi is not None, u, 'all parts after an optional leading T are consumed in order: %s' % norm(lp[0].iter))
+    offv = bi['off'] if bi else None
     # leading T: base and offset
     first = [n for n in u.node.body if isinstance(n, ast.If) and norm(n.test) == 'isinstance(%s[0], TType)' % parts]
-    ok = len(first) == 1 and {norm(s) for s in first[0].body} == {'path_t = %s[0]' % parts, 'offset = 1'} \
-        and {norm(s) for s in first[0].orelse} == {'path_t = T', 'offset = 0'}
+    ptv = None
+    ok = len(first) == 1 and len(first[0].body) == 2 and len(first[0].orelse) == 2
+    if ok:
+        for st in first[0].body:
+            b1 = match(st, '$pt = %s[0]' % parts)
+            if b1:
+                ptv = b1['pt']
+        ok = ptv is not None and any(matches(st, '%s = 1' % offv) for st in first[0].body) and \
+            any(matches(st, '%s = T' % ptv) for st in first[0].orelse) and any(matches(st, '%s = 0' % offv) for st in first[0].orelse)
     ctx.ob(ok, u, 'a leading T expression is the base, otherwise T itself')
-    # Path part -> its T; T part -> splice; else 'P'
     calls = [c for c in calls_in(u) if callee_qual(p, u, c) == 'core._t_child']
     ctx.ob(len(calls) == 2, u, 'two ways to extend: splice a recorded step, or add a path step')
     sp = [c for c in calls if isinstance(c.args[1], ast.Subscript)]
     pp = [c for c in calls if isinstance(c.args[1], ast.Constant)]
-    ok = len(sp) == 1 and is_name(sp[0].args[0], 'path_t') and norm(sp[0].args[1]) == 'sub_parts[i]' and norm(sp[0].args[2]) == 'sub_parts[i + 1]'
-    ctx.ob(ok, u, 'spliced steps keep their op and argument: %s' % [norm(c) for c in sp])
-    ok = len(pp) == 1 and pp[0].args[1].value == 'P' and is_name(pp[0].args[2], lp[0].target.id) and is_name(pp[0].args[0], 'path_t')
+    bs = match(sp[0], '_t_child(%s, $sub[$i], $sub[$i + 1])' % ptv) if len(sp) == 1 else None
+    ctx.ob(bs is not None, u, 'spliced steps keep their op and argument: %s' % [norm(c) for c in sp])
+    ok = len(pp) == 1 and pp[0].args[1].value == 'P' and is_name(lp[0].target) and is_name(pp[0].args[2], lp[0].target.id) and is_name(pp[0].args[0], ptv)
     ctx.ob(ok, u, "any other part becomes a 'P' step holding the part itself: %s" % [norm(c) for c in pp])
     for c in calls:
         st = stmt_of(c)
-        ctx.ob(isinstance(st, ast.Assign) and is_name(st.targets[0], 'path_t'), u, 'the extended expression replaces the running one: %s' % norm(st))
+        ctx.ob(isinstance(st, ast.Assign) and is_name(st.targets[0], ptv), u, 'the extended expression replaces the running one: %s' % norm(st))
     g = [n for n in ast.walk(lp[0]) if isinstance(n, ast.If) and 'is not T' in norm(n.test)]
     ok = len(g) == 1 and isinstance(g[0].body[0], ast.Raise)
     ctx.ob(ok, u, 'only T-rooted expressions can be spliced')
     wl = [n for n in ast.walk(lp[0]) if isinstance(n, ast.While)]
-    ok = len(wl) == 1 and norm(wl[0].test) == 'i < len(sub_parts)'
+    ok = len(wl) == 1 and bs is not None and matches(wl[0].test, '%s < len(%s)' % (bs['i'], bs['sub']))
     ctx.ob(ok, u, 'every step of a spliced expression is copied: %s' % [norm(x.test) for x in wl])
     fin = u.node.body[-1]
-    ctx.ob(norm(fin) == 'self.path_t = path_t', u, 'the result is stored once, at the end')
-    e = u.node.body[0]
+    ctx.ob(matches(fin, 'self.path_t = %s' % ptv), u, 'the result is stored once, at the end')
+    e = next((n for n in u.node.body if isinstance(n, ast.If)), None)
     ok = isinstance(e, ast.If) and norm(e.test) == 'not %s' % parts and norm(e.body[0]) == 'self.path_t = T'
     ctx.ob(ok, u, 'Path() is T')
-    # _t_child builds a new T per step
     tu = ctx.unit('core._t_child')
     news = [c for c in calls_in(tu) if callee_qual(p, tu, c) == 'core.TType']
     r = [n for n in tu.node.body if isinstance(n, ast.Return)]
@@ -411,9 +433,26 @@ def slice_scaling(ctx):
     m, w = model(ctx)
     S, O = w.stride, w.offset
     u = ctx.unit('core.Path.__getitem__')
+    idx = u.params[1]
     tr = [n for n in u.own_nodes() if isinstance(n, ast.Try)]
     ctx.require(len(tr) == 1, 'Path.__getitem__: slice branch not found')
     body = tr[0].body
+    roles = {}
+    for n in body:
+        if isinstance(n, ast.Assign) and is_name(n.targets[0]):
+            if matches(n.value, '%s.step' % idx):
+                roles['step'] = n.targets[0].id
+            b = match(n.value, '%s.start if %s.start is not None else $$d' % (idx, idx))
+            if b:
+                roles['start'] = n.targets[0].id
+                roles['start_default'] = b['d']
+            if matches(n.value, '%s.stop' % idx):
+                roles['stop'] = n.targets[0].id
+    ctx.require({'step', 'start', 'stop'} <= set(roles), 'Path.__getitem__: slice parts not found: %s' % sorted(roles))
+    opsv = None
+    for n in u.node.body:
+        if isinstance(n, ast.Assign) and isinstance(n.value, ast.Attribute) and n.value.attr == '__ops__' and is_name(n.targets[0]):
+            opsv = n.targets[0].id
 
     def scaled(name):
         out = []
@@ -423,7 +462,8 @@ def slice_scaling(ctx):
                         and isinstance(x.value.test, ast.Compare) and isinstance(x.value.test.ops[0], ast.GtE):
                     out.append(x.value)
         return out
-    for name in ('start', 'stop'):
+    for role in ('start', 'stop'):
+        name = roles[role]
         es = scaled(name)
         ok = len(es) == 1
         if ok:
@@ -431,26 +471,27 @@ def slice_scaling(ctx):
                 ok = linear(es[0].body, {name: (1, 0)}) == (S, O)
                 neg = es[0].orelse
                 ok = ok and isinstance(neg, ast.BinOp) and isinstance(neg.op, ast.Add) and linear(neg.left, {name: (1, 0)}) == (S, 0) \
-                    and norm(neg.right).startswith('len(')
+                    and matches(neg.right, 'len(%s)' % opsv)
             except NotAffine:
                 ok = False
-        ctx.ob(ok, u, 'slice %s k maps to op position %d*k + %d (from the end: %d*k + len(ops))' % (name, S, O, S), node=es[0] if es else None)
-    d = [n for n in body if isinstance(n, ast.Assign) and is_name(n.targets[0], 'start') and isinstance(n.value, ast.IfExp)
-         and 'is not None' in norm(n.value.test)]
-    ctx.ob(len(d) == 1 and norm(d[0].value.orelse) == '0', u, 'a missing start means 0')
-    g = [n for n in body if isinstance(n, ast.If) and norm(n.test) == 'stop is not None']
+        ctx.ob(ok, u, 'slice %s k maps to op position %d*k + %d (from the end: %d*k + len(ops))' % (role, S, O, S), node=es[0] if es else None)
+    ctx.ob(norm(roles['start_default']) == '0', u, 'a missing start means 0')
+    g = [n for n in body if isinstance(n, ast.If) and matches(n.test, '%s is not None' % roles['stop'])]
     ctx.ob(len(g) == 1, u, 'a missing stop stays open-ended')
-    # the new path: root + selected steps; strided slices regroup (op, arg) pairs
     st = [n for n in u.node.body if isinstance(n, ast.Assign) and isinstance(n.targets[0], ast.Attribute) and n.targets[0].attr == '__ops__']
-    ok = len(st) == 1 and norm(st[0].value) == '(cur_t_path[0],) + new_path'
-    ctx.ob(ok, u, 'the result keeps the root and the selected steps: %s' % [norm(s) for s in st])
-    sel = [n for n in u.node.body if isinstance(n, ast.Assign) and is_name(n.targets[0], 'new_path') and isinstance(n.value, ast.Subscript)]
-    ok = len(sel) == 1 and norm(sel[0].value) == 'cur_t_path[start:stop]'
+    b = match(st[0].value, '(%s[0],) + $np' % opsv) if len(st) == 1 else None
+    ctx.ob(b is not None, u, 'the result keeps the root and the selected steps: %s' % [norm(s_) for s_ in st])
+    npv = b['np'] if b else None
+    sel = [n for n in u.node.body if isinstance(n, ast.Assign) and is_name(n.targets[0], npv) and isinstance(n.value, ast.Subscript)]
+    ok = len(sel) == 1 and matches(sel[0].value, '%s[%s:%s]' % (opsv, roles['start'], roles['stop']))
     ctx.ob(ok, u, 'steps are selected by one contiguous slice of the op tuple')
-    stp = [n for n in ast.walk(u.node) if isinstance(n, ast.If) and norm(n.test) == 'step is not None and step != 1']
-    ok = len(stp) == 1 and norm(stp[0].body[0]) == 'new_path = tuple(zip(new_path[::%d], new_path[1::%d]))[::step]' % (S, S) \
-        and norm(stp[0].body[1]) == 'new_path = sum(new_path, ())'
+    stp = [n for n in ast.walk(u.node) if isinstance(n, ast.If) and matches(n.test, '%s is not None and %s != 1' % (roles['step'], roles['step']))]
+    ok = len(stp) == 1 and len(stp[0].body) == 2 and \
+        matches(stp[0].body[0], '%s = tuple(zip(%s[::%d], %s[1::%d]))[::%s]' % (npv, npv, S, npv, S, roles['step'])) \
+        and matches(stp[0].body[1], '%s = sum(%s, ())' % (npv, npv))
     ctx.ob(ok, u, 'a step regroups (op, arg) pairs before striding, then flattens them again')
     r = [n for n in u.node.body if isinstance(n, ast.Return)]
-    ctx.ob(len(r) == 1 and norm(r[0].value) == 'Path(new_t)', u, 'indexing and slicing return a new Path')
+    ok = len(r) == 1 and st and isinstance(r[0].value, ast.Call) and callee_qual(ctx.program, u, r[0].value) == 'core.Path' \
+        and is_name(r[0].value.args[0]) and is_name(st[0].targets[0].value, r[0].value.args[0].id)
+    ctx.ob(ok, u, 'indexing and slicing return a new Path')
     ctx.floor(8)
